@@ -310,10 +310,16 @@ async fn exec_pair_body(case: &PairCase, with_clock: bool) -> Result<PairFacts, 
     facts.offered = true;
     let reset = gc_r < gc_s && max_r < gc_s;
     facts.reset = reset;
-    let from = if reset { 0 } else { max_r };
-    if d.from_version != from {
-        return vio("C14/wrong-start", format!("sender ({gc_s},{max_s}), receiver ({gc_r},{max_r}): start version {} but the rule gives {} (reset={reset})", d.from_version, from));
+    // "It starts from version 0 exactly when both the receiver's max version and watermark lie
+    // below the sender's watermark"; an incremental delta may start anywhere at or below the
+    // receiver's max version (re-sending known versions is wasteful, not wrong).
+    if reset && d.from_version != 0 {
+        return vio("C14/wrong-start", format!("sender ({gc_s},{max_s}), receiver ({gc_r},{max_r}): a reset is required but the delta starts at version {}", d.from_version));
     }
+    if !reset && ((d.from_version == 0 && max_r != 0) || d.from_version > max_r) {
+        return vio("C14/wrong-start", format!("sender ({gc_s},{max_s}), receiver ({gc_r},{max_r}): no reset is warranted but the delta starts at version {} (receiver max {max_r})", d.from_version));
+    }
+    let from = d.from_version;
     if d.last_gc != gc_s {
         return vio("C14/wrong-watermark", format!("delta watermark {} != sender watermark {gc_s}", d.last_gc));
     }
@@ -364,6 +370,24 @@ async fn exec_pair_body(case: &PairCase, with_clock: bool) -> Result<PairFacts, 
         let want = (if reset { gc_s } else { gc_r }, d.max_version);
         if (after.gc, after.max) != want {
             return vio("C14/wrong-frontier-after-apply", format!("receiver frontier ({},{}) after applying, expected {:?}", after.gc, after.max, want));
+        }
+    }
+    // Semantic end state, independent of the header fields: every sender entry in (old receiver
+    // max, new receiver max] is now held by the receiver (unless it is a deletion at or below the
+    // receiver's new watermark, or the receiver holds a newer version of that key).
+    for e in &case.sender.entries {
+        // (Keys the receiver already held before - in an arbitrary, possibly inconsistent pair -
+        // are left to the reference apply below.)
+        let held_before = !reset && before.entries.iter().any(|x| x.key == e.key);
+        if e.version <= after.max && (reset || e.version > before.max) && !held_before {
+            let held = after.entries.iter().find(|x| x.key == e.key);
+            let ok = match held {
+                Some(x) => x.version > e.version || (x.version == e.version && x.status == e.status),
+                None => e.status != 0 && e.version <= after.gc,
+            };
+            if !ok && carries {
+                return vio("C14/receiver-copy-not-exact", format!("after applying, receiver ({},{}) lacks sender entry (key {}, v{}, status {}): holds {:?}", after.gc, after.max, e.key, e.version, e.status, held));
+            }
         }
     }
     if after != expected {
